@@ -46,6 +46,22 @@ def assume(cond) -> None:
     raise IgnoreAttempt('assume')
 
 
+def notrace():
+    """Context manager: run the body outside CrossHair's tracing (only ever
+    used around C-library calls on *concrete* arguments, e.g. codecs, for
+    which CrossHair's own pure-Python models are incomplete)."""
+    import contextlib
+    if os.environ.get('VF_REPLAY'):
+        return contextlib.nullcontext()
+    try:
+        from crosshair.tracers import NoTracing, is_tracing
+        if is_tracing():
+            return NoTracing()
+    except Exception:
+        pass
+    return contextlib.nullcontext()
+
+
 class Fuel(Exception):
     """Raised by fuel counters when a loop exceeds its stated work bound"""
 
